@@ -25,7 +25,7 @@ a(r'SymbolFile>::parse_async::\{closure#0\}\|loop', 'same state machine as parse
 a(r'SymbolFile>::fill_symbol\|loop', 'for depth in 1..: leaves the loop as soon as get_inlinee_at_depth(depth, addr) is None; every depth that continues is witnessed by a distinct INLINE record of that depth, so iterations <= number of inlinee records + 1')
 a(r'SymbolFile>::walk_frame::\{closure#0\}\|loop', 'while count < len: count += 1 on every iteration')
 a(r'minidump_stackwalk::main_result::\{closure#0\}::\{closure#3\}::\{closure#0\}\|loop', 'intentionally endless UI-refresh future (`update_state`): every iteration awaits a 500 ms sleep; it is raced by tokio::select! against process_minidump_with_options and dropped when that completes (the other select arm is unreachable!())', 'C20.select')
-a(r'minidump_unwind::walk_stack::\{closure#0\}::\{closure#0\}\|loop', 'FIND: one frame per iteration; ends only when get_caller_frame returns None. Progress (C05.2) makes sp strictly increase, but nothing ties the number of frames to the stack memory size')
+a(r'minidump_unwind::walk_stack::\{closure#0\}::\{closure#0\}\|loop', 'one frame per iteration; between consecutive frames the stack pointer (a u64) strictly increases, with at most one equal-sp step after the context frame (C05.2), so the walk is finite. That the number of frames is also bounded by the stack size is a separate clause, checked by C03.3', 'C05.2')
 
 
 def main():
